@@ -54,16 +54,27 @@ type blk struct {
 }
 
 type cfg struct {
-	Dur, MaxB, PNum, PExp int64
-	Disk                  uint64
-	Head                  int64
+	Dur, MaxB int64
+	P         float64 // Options.MaxPercentage
+	Disk      uint64
+	Head      int64
 }
 
-func (c cfg) pct() float64 { return float64(c.PNum) / float64(int64(1)<<uint(c.PExp)) }
+func (c cfg) pct() float64 { return c.P }
+
+// significand and binary exponent of the percentage: P = m * 2^e exactly (0,0 for 0)
+func (c cfg) pme() (int64, int64) {
+	if c.P == 0 || math.IsNaN(c.P) || math.IsInf(c.P, 0) {
+		return 0, 0
+	}
+	fr, ex := math.Frexp(c.P)
+	return int64(fr * (1 << 53)), int64(ex - 53)
+}
 
 func (c cfg) term() string {
-	return fmt.Sprintf("(mkCfg %s %s %s %s %s %s)", gallina.Z(c.Dur), gallina.Z(c.MaxB), gallina.Z(c.PNum),
-		gallina.Z(c.PExp), gallina.ZU(c.Disk), gallina.Z(c.Head))
+	m, e := c.pme()
+	return fmt.Sprintf("(mkCfg %s %s %s %s %s %s)", z(c.Dur), z(c.MaxB), z(m),
+		z(e), zu(c.Disk), z(c.Head))
 }
 
 func (b *blk) term() string {
@@ -71,8 +82,24 @@ func (b *blk) term() string {
 	for i, p := range b.Parents {
 		ps[i] = int64(p)
 	}
-	return fmt.Sprintf("(mkB %s %s %s %s %s %s)", gallina.Z(int64(b.ID)), gallina.Z(b.Mint), gallina.Z(b.Maxt),
-		gallina.Z(b.Size), gallina.Bool(b.Del), gallina.ListZ(ps))
+	return fmt.Sprintf("(mkB %s %s %s %s %s %s)", z(int64(b.ID)), z(b.Mint), z(b.Maxt),
+		z(b.Size), gallina.Bool(b.Del), listZ(ps))
+}
+
+// numerals without %Z (the case files open Z_scope): noticeably cheaper to elaborate
+func z(v int64) string {
+	if v < 0 {
+		return fmt.Sprintf("(%d)", v)
+	}
+	return fmt.Sprint(v)
+}
+func zu(v uint64) string { return fmt.Sprint(v) }
+func listZ(vs []int64) string {
+	it := make([]string, len(vs))
+	for i, v := range vs {
+		it[i] = z(v)
+	}
+	return gallina.List(it)
 }
 
 func blkList(bs []*blk) string {
@@ -88,13 +115,13 @@ func idList(ids []int) string {
 	for i, x := range ids {
 		v[i] = int64(x)
 	}
-	return gallina.ListZ(v)
+	return listZ(v)
 }
 
 // effMax mirrors the documented meaning of the limits (only used to steer the generator and
 // to classify cases; never compared).
 func (c cfg) effMax() int64 {
-	if c.PNum > 0 && c.Disk > 0 {
+	if c.P > 0 && c.Disk > 0 {
 		return int64(float64(c.Disk) * c.pct() / 100)
 	}
 	return c.MaxB
@@ -218,25 +245,28 @@ func genCfg(r *gen.Rand, bs []*blk, head int64, wild bool) cfg {
 	c.MaxB = target
 	// percentage
 	if r.Chance(1, 3) {
-		type pc struct{ num, exp int64 }
-		p := gen.Pick(r, []pc{{1, 0}, {10, 0}, {25, 1}, {25, 0}, {50, 0}, {100, 0}, {1, 1}, {200, 0}, {3, 2}, {99, 0}, {33, 0}})
-		c.PNum, c.PExp = p.num, p.exp
-		if r.Chance(1, 8) {
-			c.PNum = -c.PNum
+		c.P = gen.Pick(r, []float64{1, 10, 12.5, 25, 50, 100, 0.5, 200, 0.75, 99, 33, 33.3, 0.1, 66.6667, 1e-3, 7.3, 99.99})
+		if r.Chance(1, 5) {
+			c.P = r.Float() * 100
 		}
 		if r.Chance(1, 8) {
-			c.PNum = 0
+			c.P = -c.P
 		}
-		if target > 0 && target < 1<<38 && c.PNum > 0 {
+		if r.Chance(1, 8) {
+			c.P = 0
+		}
+		if target > 0 && target < 1<<38 && c.P > 0 {
 			// disk size such that disk*pct/100 lands on target or next to it
-			den := (int64(1) << uint(c.PExp)) * 100
-			c.Disk = uint64((target*den+c.PNum-1)/c.PNum + r.Range(-1, 1))
+			c.Disk = uint64(int64(math.Ceil(float64(target)*100/c.P)) + r.Range(-1, 1))
 			if int64(c.Disk) < 0 {
 				c.Disk = 0
 			}
 			c.MaxB = r.PickI64(0, target, 1, target*2) // must be ignored when the percentage applies
 		} else {
 			c.Disk = uint64(r.Range(0, 1<<30))
+		}
+		if r.Chance(1, 12) { // float64(diskSize) itself rounds
+			c.Disk = uint64(r.Range(1<<53, 1<<60))
 		}
 		if r.Chance(1, 10) {
 			c.Disk = 0 // FsSize failed: fall back to MaxBytes
@@ -256,7 +286,7 @@ func classify(c cfg, nT, nS, n int, ties, straddle bool) string {
 	if len(p) == 0 {
 		p = append(p, "keep-all")
 	}
-	if nT == n-0 && n > 0 || nS == n && n > 0 {
+	if nS == n && n > 0 {
 		p = append(p, "all-gone")
 	}
 	if ties {
@@ -271,7 +301,7 @@ func classify(c cfg, nT, nS, n int, ties, straddle bool) string {
 func streamA(f gallina.Flags, db *tsdb.DB) {
 	var fsSize uint64
 	tsdb.VerifC09SetFsSizeFunc(db, func(string) uint64 { return fsSize })
-	n := f.Count(2500, 60000)
+	n := f.Count(1200, 20000)
 	headT := int64(1) << 41
 	r0 := gen.Fork(f.Seed, 1<<30)
 	type fixed struct {
@@ -284,7 +314,7 @@ func streamA(f gallina.Flags, db *tsdb.DB) {
 		{"time-retention-test", []*blk{{Mint: 500, Maxt: 900}, {Mint: 1000, Maxt: 1500}, {Mint: 1500, Maxt: 2000}}, cfg{Dur: 1000}},
 		{"tie-at-size-limit", []*blk{{Maxt: 100, Size: 10}, {Maxt: 100, Size: 20}, {Maxt: 100, Size: 30}, {Maxt: 50, Size: 1}}, cfg{MaxB: 35}},
 		{"tie-at-time-limit", []*blk{{Maxt: 100}, {Maxt: 90}, {Maxt: 90}, {Maxt: 89}}, cfg{Dur: 10}},
-		{"pct-10", []*blk{{Maxt: 3, Size: 1024}, {Maxt: 2, Size: 1024}, {Maxt: 1, Size: 1024}}, cfg{PNum: 10, Disk: 20480}},
+		{"pct-10", []*blk{{Maxt: 3, Size: 1024}, {Maxt: 2, Size: 1024}, {Maxt: 1, Size: 1024}}, cfg{P: 10, Disk: 20480}},
 		{"maxt-span-overflow", []*blk{{Maxt: math.MaxInt64}, {Maxt: 0}, {Maxt: math.MinInt64}}, cfg{Dur: 5}},
 		{"size-sum-overflow", []*blk{{Maxt: 3, Size: math.MaxInt64}, {Maxt: 2, Size: 5}, {Maxt: 1, Size: 7}}, cfg{MaxB: 100}},
 	}
@@ -302,8 +332,8 @@ func streamA(f gallina.Flags, db *tsdb.DB) {
 			}
 			wild = r.Chance(1, 12)
 			k := r.Intn(9)
-			if r.Chance(1, 10) {
-				k = 13 + r.Intn(40) // beyond the insertion-sort threshold of pdqsort
+			if r.Chance(1, 14) {
+				k = 13 + r.Intn(24) // beyond the insertion-sort threshold of pdqsort
 			}
 			base := r.Range(-1000, 1000)
 			if wild {
@@ -366,7 +396,7 @@ func streamA(f gallina.Flags, db *tsdb.DB) {
 		S := tsdb.BeyondSizeRetention(db, real)
 		dI, tI, sI := sortedIDs(D, idx), sortedIDs(T, idx), sortedIDs(S, idx)
 
-		term := fmt.Sprintf("%s %s %s %s %s %s", c.term(), blkList(bs), blkList(order), idList(dI), idList(tI), idList(sI))
+		term := fmt.Sprintf("%s %s %s %s %s %s", c.term(), blkList(bs), idList(orderIDs), idList(dI), idList(tI), idList(sI))
 		if seen[term] {
 			continue
 		}
@@ -395,14 +425,14 @@ func streamA(f gallina.Flags, db *tsdb.DB) {
 		if len(bs) > 12 {
 			meta.Hit("A:n>12")
 		}
-		if c.PNum > 0 && c.Disk > 0 {
+		if c.P > 0 && c.Disk > 0 {
 			meta.Hit("A:percentage")
 		}
 		meta.Hit("A:" + class)
 		if (len(tI) > 0 || len(sI) > 0) && len(dI) < len(bs) {
 			meta.Nontrivial++
 		}
-		cf.Add(fmt.Sprintf("CPure %s %s", gallina.Z(int64(nid)), term))
+		cf.Add(fmt.Sprintf("CPure %s %s", z(int64(nid)), term))
 		shape := "pure:" + class
 		if corp != "" {
 			shape = "corpus:" + corp
@@ -529,6 +559,13 @@ func (s *scenario) listDirs2(post bool) []int {
 	return r
 }
 
+func trunc(s string) string {
+	if len(s) > 60 {
+		return s[:60]
+	}
+	return s
+}
+
 func dirBytes(d string) int64 {
 	var n int64
 	_ = filepath.WalkDir(d, func(p string, e fs.DirEntry, err error) error {
@@ -566,7 +603,13 @@ func dirListing(d string) string {
 
 func (s *scenario) headPrint(withFiles bool) string {
 	h := s.db.Head()
-	p := fmt.Sprintf("series=%d mint=%d maxt=%d", h.NumSeries(), h.MinTime(), h.MaxTime())
+	p := fmt.Sprintf("series=%d", h.NumSeries())
+	if withFiles { // across a reopen Head.MinTime() is re-initialised to the blocks' max time; not data
+		p += fmt.Sprintf(" mint=%d", h.MinTime())
+	}
+	if withFiles || h.NumSeries() > 0 {
+		p += fmt.Sprintf(" maxt=%d", h.MaxTime())
+	}
 	if withFiles {
 		p += fmt.Sprintf(" size=%d wal=%s chunks=%s", h.Size(), dirListing(filepath.Join(s.dir, "wal")), dirListing(filepath.Join(s.dir, "chunks_head")))
 	}
@@ -625,12 +668,10 @@ func (s *scenario) observe(step string, reopen bool) bool {
 	} else {
 		err = tsdb.VerifC09ReloadBlocks(s.db)
 		if *s.cur != nil {
-			var ob []*blk
 			for _, u := range *s.order {
-				ob = append(ob, s.blocks[s.byU[u]])
 				orderIDs = append(orderIDs, s.byU[u])
 			}
-			orderTerm = "(Some " + blkList(ob) + ")"
+			orderTerm = "(Some " + idList(orderIDs) + ")"
 		}
 	}
 	after := s.headPrint(!reopen)
@@ -638,7 +679,7 @@ func (s *scenario) observe(step string, reopen bool) bool {
 	od := s.listDirs2(true)
 	term := fmt.Sprintf("%s %s %s %s %s %s %s %s %s", s.c.term(), gallina.List(disk), idList(prev), orderTerm,
 		gallina.Bool(err != nil), idList(ob), idList(od), gallina.Bool(before == after), gallina.Bool(headsumOK))
-	cf.Add(fmt.Sprintf("CReload %s %s", gallina.Z(int64(nid)), term))
+	cf.Add(fmt.Sprintf("CReload %s %s", z(int64(nid)), term))
 	// classification
 	gone := len(diskIDs) - len(od)
 	class := step
@@ -658,7 +699,7 @@ func (s *scenario) observe(step string, reopen bool) bool {
 	}
 	seen[term] = true
 	meta.Case(nid, pdesc{Kind: "reload", Shape: "reload:" + class, Cfg: s.c, Pct: s.c.pct(), Blocks: dblks, Order: orderIDs, Step: step, Scn: s.idx,
-		Obs: fmt.Sprintf("err=%v blocks=%v dirs=%v prev=%v headsame=%v headsum=%v(%d/%d)", err, ob, od, prev, before == after, headsumOK, headBytes, s.c.Head)})
+		Obs: fmt.Sprintf("err=%v blocks=%v dirs=%v prev=%v headsame=%v[%s|%s] headsum=%v(%d/%d)", err, ob, od, prev, before == after, trunc(before), trunc(after), headsumOK, headBytes, s.c.Head)})
 	meta.Evaluations++
 	nid++
 	return err == nil
@@ -805,7 +846,7 @@ func runScenario(f gallina.Flags, i int, tmpls []tmpl) {
 				reopen = false
 			}
 		}
-		switch kind := r.Intn(6); {
+		switch kind := r.Intn(8) - 2; {
 		case kind <= 1: // a compaction finished writing its result; crash at any prefix of the parent deletions
 			ld := s.loadedBlks()
 			if len(ld) < 2 {
@@ -907,11 +948,59 @@ func runScenario(f gallina.Flags, i int, tmpls []tmpl) {
 	}
 }
 
+// corpus scenario: size retention counts the parents that the same reload removes
+// (C09_size_tight_refuted): X old and independent, A and B compacted into C, limit such that
+// head + C + X fits but head + C + B + A + X does not.
+func quirkScenario(f gallina.Flags, tmpls []tmpl) {
+	r := gen.Fork(f.Seed, 1<<29)
+	dir, err := os.MkdirTemp(f.Out, "c09db")
+	must(err)
+	defer os.RemoveAll(dir)
+	var cur *tsdb.DB
+	var order []ulid.ULID
+	s := &scenario{dir: dir, r: r, tmpls: tmpls[:1], blocks: map[int]*blk{}, byU: map[ulid.ULID]int{}, cur: &cur, order: &order, headT: int64(1) << 41, idx: -1}
+	o := s.opts()
+	o.BlocksToDelete = func(bs []*tsdb.Block) map[ulid.ULID]struct{} {
+		if cur == nil {
+			return nil
+		}
+		res := tsdb.DefaultBlocksToDelete(cur)(bs)
+		order = order[:0]
+		for _, b := range bs {
+			order = append(order, b.Meta().ULID)
+		}
+		return res
+	}
+	db, err := openDB(dir, o)
+	must(err)
+	s.db, cur = db, db
+	defer func() { _ = s.db.Close() }()
+	x, a, b := s.newBlk(0, 50), s.newBlk(50, 100), s.newBlk(100, 200)
+	s.stage(x, 0)
+	s.stage(a, 0)
+	s.stage(b, 0)
+	s.applyCfg(false)
+	s.observe("corpus-quirk-setup", false)
+	c := s.newBlk(50, 200)
+	c.Parents = []int{a.ID, b.ID}
+	s.stage(c, 0)
+	s.c.MaxB = s.db.Head().Size() + c.Size + a.Size + b.Size + x.Size - 1
+	s.applyCfg(false)
+	s.observe("corpus-quirk", false)
+	left := s.loadedIDs()
+	if len(left) == 1 && left[0] == c.ID {
+		meta.Hit("B:quirk-superseded-counted-reproduced")
+		meta.Notes = append(meta.Notes, fmt.Sprintf("size retention counted superseded parents: limit %d, survivors+X would need %d, X deleted", s.c.MaxB, s.db.Head().Size()+c.Size+x.Size))
+	} else {
+		meta.Hit("B:quirk-superseded-counted-not-reproduced")
+	}
+}
+
 func main() {
 	f := gallina.ParseFlags()
 	meta = gallina.NewMeta("C09", f.Seed, f.Tier)
 	meta.Rule = "stream A: corpus + seeded layouts (0-8 or 13-52 blocks, MaxTime drawn from few values to force ties, limits placed on/next to every MaxTime difference and cumulative size, dyadic percentages, int64 extremes in the 'wild' twelfth); stream B: seeded histories of reloads on real directories (ties, overlaps, Deletable flags, dangling parents, corrupted and unreadable blocks, interrupted compactions, config changes, head growth, crash+reopen). Non-trivial = retention deleted at least one block and kept at least one (A), or the reload removed some but not all block directories (B); distinct by the printed case term"
-	cf = &gallina.CaseFile{Dir: f.Out, Type: "case", PerShard: 1500,
+	cf = &gallina.CaseFile{Dir: f.Out, Type: "case", PerShard: 400,
 		Preamble: "From Coq Require Import List ZArith.\nFrom Verif Require Import lib.Int64 model.Retention corr.CorrC09.\nImport ListNotations.\nOpen Scope Z_scope.\n",
 		Footer:   gallina.StdFooter}
 	root, err := os.MkdirTemp(f.Out, "c09root")
@@ -920,7 +1009,8 @@ func main() {
 
 	// stream B first (its cases are the expensive ones; ids start at 0)
 	tmpls := []tmpl{makeTemplate(root, 1), makeTemplate(root, 7), makeTemplate(root, 40)}
-	nB := f.Count(120, 2500)
+	nB := f.Count(90, 1500)
+	quirkScenario(f, tmpls)
 	for i := 0; i < nB; i++ {
 		runScenario(f, i, tmpls)
 	}
